@@ -220,6 +220,12 @@ func modeC06() {
 			// damaged data: the sender's background hash of the verification chunk may be slow -
 			// one "demote" keeps it out of the way while the rest of the file goes through
 			cfg.Demote = bound > 0 && (t.Kind == "damage-chunk" || strings.HasPrefix(t.Kind, "shorten") || t.Kind == "delete-data")
+			if cfg.Demote {
+				// ... or late by some hundred milliseconds, so that the sender's timer-driven polls
+				// (end of file, scheduler ticks) run before the hash is done
+				cfg.DemoteSleep = int64(400 * time.Millisecond)
+				cfg.StartPoints = t.Kind == "damage-chunk" // the hash goroutine has no point before its verdict
+			}
 			explore(st, p, env, bound, deadline, cfg, func(x *vrt.Exec, o *Outcome) {
 				checkC06(p, t, x, o)
 				res.Nontrivial(fmt.Sprintf("%s|%s|%x", keyOf(c), t, x.Trace()))
